@@ -29,7 +29,7 @@ inductive Step | acquire | begin | update | body | flush | end_ | release
 deriving DecidableEq, Repr
 
 /-- Where an exception is raised. -/
-inductive Fault | none | atBegin | atUpdate | atBody | atFlush | atEnd
+inductive Fault | none | atBegin | atUpdate | atBody | atFlush | atEnd | atBodyBase   -- atBodyBase: the body is left by a BaseException that is not an Exception (KeyboardInterrupt, SystemExit, GeneratorExit)
 deriving DecidableEq, Repr
 
 /-- `trace k f` = the steps that were entered, in order, when a session of kind `k` meets fault `f`
@@ -38,7 +38,7 @@ structure Skeleton where
   trace : Kind → Fault → List Step
 
 def allKinds : List Kind := [.reading, .writing]
-def allFaults : List Fault := [.none, .atBegin, .atUpdate, .atBody, .atFlush, .atEnd]
+def allFaults : List Fault := [.none, .atBegin, .atUpdate, .atBody, .atFlush, .atEnd, .atBodyBase]
 
 /-- First step is `acquire`, last step is `release`, no lock operation in between. -/
 def goodTrace (tr : List Step) : Bool :=
@@ -75,7 +75,7 @@ def Skeleton.ordered (sk : Skeleton) : Bool :=
   allKinds.all fun k => orderedNoFault k (sk.trace k .none)
 
 def Skeleton.writerFlushes (sk : Skeleton) : Bool :=
-  [Fault.none, .atBody].all fun f => flushesAfterBody (sk.trace .writing f)
+  [Fault.none, .atBody, .atBodyBase].all fun f => flushesAfterBody (sk.trace .writing f)
 
 /-! ### programs of atomic actions -/
 
@@ -113,13 +113,13 @@ def expandStep (p : Plan) : Step → List Act
   | .update => if p.fault == .atUpdate then [] else [.updateKeys]
   | .body =>
     match p.kind with
-    | .reading => if p.fault == .atBody then [] else [.readAll]
+    | .reading => if p.fault == .atBody || p.fault == .atBodyBase then [] else [.readAll]
     | .writing =>
-      let ps := if p.fault == .atBody then p.puts.take p.cut else p.puts
+      let ps := if p.fault == .atBody || p.fault == .atBodyBase then p.puts.take p.cut else p.puts
       ps.map .enqueue
   | .flush =>
     if p.kind == .reading then [] else
-    let n := if p.fault == .atBody then min p.cut p.puts.length else p.puts.length
+    let n := if p.fault == .atBody || p.fault == .atBodyBase then min p.cut p.puts.length else p.puts.length
     let m := if p.fault == .atFlush then min p.cut n else n
     (List.replicate m [Act.writeBegin, Act.writeEnd]).flatten
 
